@@ -14,7 +14,8 @@ use std::time::{Duration, Instant};
 #[derive(Debug, Clone)]
 pub enum Res {
     Ok(String),
-    /// "abort" (the process died: stack overflow, abort) or "timeout"
+    /// "abort" (the process died: stack overflow, abort — immediate) or "timeout" (only after the text was re-run
+    /// alone and the child used more than `ALONE_CPU_LIMIT_S` seconds of CPU without answering)
     Died(&'static str),
 }
 
@@ -59,6 +60,8 @@ struct Slot {
 /// parent side: process `inputs` on `n` workers started as `<current exe> <args…>`; results in input order
 pub fn run_workers(args: &[&str], inputs: &[String], n: usize, timeout: Duration) -> Vec<Res> {
     let exe = std::env::current_exe().unwrap();
+    // test knob: a tiny first-phase limit forces texts through the alone re-run
+    let timeout = std::env::var("VERIF_WORKER_TIMEOUT_MS").ok().and_then(|v| v.parse().ok()).map(Duration::from_millis).unwrap_or(timeout);
     let next = AtomicUsize::new(0);
     let results: Mutex<Vec<Option<Res>>> = Mutex::new(vec![None; inputs.len()]);
     let slots: Vec<Arc<Mutex<Slot>>> = (0..n).map(|_| Arc::new(Mutex::new(Slot { child: None, deadline: None, timed_out: false }))).collect();
@@ -129,5 +132,71 @@ pub fn run_workers(args: &[&str], inputs: &[String], n: usize, timeout: Duration
             });
         }
     });
-    results.into_inner().unwrap().into_iter().map(|r| r.unwrap_or(Res::Died("abort"))).collect()
+    let mut out: Vec<Res> = results.into_inner().unwrap().into_iter().map(|r| r.unwrap_or(Res::Died("abort"))).collect();
+    // A wall-clock limit says nothing on a loaded machine: every text that timed out in the parallel phase is
+    // run again ALONE (one worker, nothing else running in this harness) and judged by the child's CPU time.
+    for i in 0..out.len() {
+        if matches!(out[i], Res::Died("timeout")) {
+            out[i] = run_alone(args, &inputs[i]);
+        }
+    }
+    out
+}
+
+/// CPU seconds (user + system, all threads) a process has used so far, from /proc/<pid>/stat
+fn cpu_seconds(pid: u32) -> Option<f64> {
+    let s = std::fs::read_to_string(format!("/proc/{pid}/stat")).ok()?;
+    let rest = &s[s.rfind(')')? + 1..];
+    let f: Vec<&str> = rest.split_whitespace().collect();
+    // after the command name: state is field 0, utime field 11, stime field 12 (clock ticks, 100 per second)
+    let ut: f64 = f.get(11)?.parse().ok()?;
+    let st: f64 = f.get(12)?.parse().ok()?;
+    Some((ut + st) / 100.0)
+}
+
+pub const ALONE_CPU_LIMIT_S: f64 = 300.0;
+pub const ALONE_WALL_CAP_S: u64 = 3600;
+
+/// one text, one fresh worker, nothing else: a hang only if the child has burnt `ALONE_CPU_LIMIT_S` of CPU
+/// without answering (or, for a child that sleeps forever, after `ALONE_WALL_CAP_S` of wall time)
+pub fn run_alone(args: &[&str], input: &str) -> Res {
+    let exe = std::env::current_exe().unwrap();
+    let mut c = match Command::new(&exe).args(args).stdin(Stdio::piped()).stdout(Stdio::piped()).stderr(Stdio::null()).spawn() {
+        Ok(c) => c,
+        Err(_) => return Res::Died("abort"),
+    };
+    let pid = c.id();
+    let mut sin = c.stdin.take().unwrap();
+    let sout = c.stdout.take().unwrap();
+    let wrote = writeln!(sin, "{}", hex(input)).and_then(|_| sin.flush()).is_ok();
+    let (tx, rx) = std::sync::mpsc::channel::<Option<String>>();
+    let reader = std::thread::spawn(move || {
+        let mut r = BufReader::new(sout);
+        let mut line = String::new();
+        let ok = r.read_line(&mut line).map(|k| k > 0 && line.ends_with('\n')).unwrap_or(false);
+        let _ = tx.send(if ok { Some(line) } else { None });
+    });
+    let start = Instant::now();
+    let res = loop {
+        if !wrote {
+            break Res::Died("abort");
+        }
+        match rx.recv_timeout(Duration::from_millis(250)) {
+            Ok(Some(line)) => break Res::Ok(line.trim_end_matches('\n').replace('\x1d', "\n")),
+            Ok(None) => break Res::Died("abort"),
+            Err(std::sync::mpsc::RecvTimeoutError::Disconnected) => break Res::Died("abort"),
+            Err(std::sync::mpsc::RecvTimeoutError::Timeout) => {
+                let cpu = cpu_seconds(pid).unwrap_or(0.0);
+                if cpu > ALONE_CPU_LIMIT_S || start.elapsed().as_secs() > ALONE_WALL_CAP_S {
+                    let _ = c.kill();
+                    break Res::Died("timeout");
+                }
+            }
+        }
+    };
+    drop(sin);
+    let _ = c.kill();
+    let _ = c.wait();
+    let _ = reader.join();
+    res
 }
